@@ -49,6 +49,12 @@ def params(tier):
              {"sig": "A", "period": 0.5, "times": 2, "deferred": True, "kind": "fifo", "at": 0.6}]]
     for srcs in late:
         ps.append({"sources": srcs, "bound": 0 if tier == "quick" else 1, "time_horizon": 2.0})
+    # sources created before start_at (the object's own thread does not exist yet)
+    for deferred, kind, times in ((True, "fifo", 3), (False, "lifo", 2), (True, "lifo", 0)):
+        ps.append({"sources": [{"sig": "A", "period": 0.5, "times": times, "deferred": deferred, "kind": kind}], "pre_start": True,
+                   "bound": 1, "time_horizon": 2.0})
+        ps.append({"sources": [{"sig": "A", "period": 0.5, "times": times, "deferred": deferred, "kind": kind}], "pre_start": True,
+                   "start_delay": 0.75, "bound": 1, "time_horizon": 2.0})
     for a, b in two:
         # two sources waking at the same instants multiply the free (cost 0) choices: shorter horizon in the quick tier
         ps.append({"sources": [a, b], "bound": 1 if tier == "quick" else 2, "time_horizon": 1.0 if tier == "quick" else 2.0})
